@@ -437,6 +437,9 @@ func lex(s []rune) (typ itemType, n int) {
 			switch {
 			case isIDChar(r):
 				state = stateField
+			case r == '$':
+				// a literal $ in front of a field, e.g. cost=$$response_status
+				return itemText, i
 			default:
 				state = stateText
 			}
